@@ -69,7 +69,10 @@ def freeze(v):
     if isinstance(v, (str, int, bool, Fraction)):
         return v
     if isinstance(v, Struct):
-        return tuple(freeze(f) for f in v.fields)
+        fs = tuple(freeze(f) for f in v.fields)
+        if len(fs) == 1 and isinstance(fs[0], str):
+            return fs[0]          # string newtypes (BaseUnit) borrow as str: same key
+        return fs
     if isinstance(v, Tup):
         return tuple(freeze(f) for f in v.fields)
     if isinstance(v, Enum):
@@ -931,6 +934,39 @@ def m_into(ex, m, args, callee):
     if src == dst:
         return args[0]
     return ex.lib.call(ex, None, '<%s as From<%s>>::from' % (dst, src), '<%s as From<%s>>::from' % (dst, src), args)
+
+
+@model(r'^<(.*) as ToOwned>::to_owned$')
+def m_to_owned(ex, m, args, callee):
+    return clone_value(ex, args[0])
+
+
+@model(r'^<str as Index<(.*)>>::index$|^<String as Index<(.*)>>::index$')
+def m_str_index(ex, m, args, callee):
+    s = val(args[0])
+    idx = val(args[1])
+    if not isinstance(s, str):
+        raise Unmodelled('slicing a non-concrete string')
+    b = s.encode('utf-8')
+    n = len(b)
+
+    def cut(lo, hi):
+        if lo > hi or hi > n:
+            ex.panic('byte index out of range for string slice')
+        try:
+            return b[lo:hi].decode('utf-8')
+        except UnicodeDecodeError:
+            ex.panic('byte index is not a char boundary')
+    if isinstance(idx, Struct):
+        if idx.name == 'RangeFrom':
+            return cut(ex.concretize_int(idx.fields[0], 'str slice start'), n)
+        if idx.name == 'RangeTo':
+            return cut(0, ex.concretize_int(idx.fields[0], 'str slice end'))
+        if idx.name == 'Range':
+            return cut(ex.concretize_int(idx.fields[0], 'str slice start'), ex.concretize_int(idx.fields[1], 'str slice end'))
+        if idx.name == 'RangeFull':
+            return s
+    raise Unmodelled('str index by %r' % (idx,))
 
 
 @model(r'^<(.*) as Default>::default$')
